@@ -151,6 +151,10 @@ func (t *Tracker) Expected(k Key) map[int64]Expect {
 			for ts, e := range out {
 				if d.DropMeas != "" || (ts >= d.Min && ts <= d.Max) {
 					e.Required = false
+					// A half-applied delete may have removed the newest value from one
+					// file and not yet an older one from another: any value the point
+					// ever held is tolerated while the delete is in flight.
+					e.Vals = append(e.Vals, t.Ever[k][ts]...)
 					out[ts] = e
 				}
 			}
